@@ -54,6 +54,17 @@ def custom_proof(tier):
         fe, ['src.transformations.base', 'src.transformations.type_overwriting', 'src.modules.processor'],
         {'is_transformed', 'error_injected'},
         {'src.transformations.type_overwriting.TypeOverwriting.visit_func_decl'})
+    # candidates are real declarations: the virtual ones the analysis invents are recognised by the reserved name only
+    out += statecheck.invented_declaration_census(fe, 'src.analysis.type_dependency_analysis')
+    # "the new type is unrelated to the replaced one": the contract of the irrelevant-type search (C09's proof part; verified
+    # here as a second group because this property's own sidecars assume that function as an external)
+    from pyvc import driver
+    out += driver.verify_group(['src.ir.type_utils.find_irrelevant_type', 'src.ir.type_utils.find_subtypes',
+                                'src.ir.type_utils.find_supertypes', 'src.ir.type_utils._find_types',
+                                'src.ir.type_utils.to_type'],
+                               ['types_sub', 'types_ctor', 'cfg_common', 'search'], repo=REPO)
+    from props import C09 as _c09
+    out += _c09.custom_proof(tier)
     return out
 
 
